@@ -16,7 +16,7 @@ _lst = re.compile(r"^\s*(\d+) ([0-9A-F]{8}) ([0-9A-F]+)(-?)\s")
 _err = re.compile(r":(\d+): error")
 
 
-def nasm_bytes(texts, prologue="bits 64\n"):
+def nasm_bytes(texts, prologue="bits 64\n", opt="-O0"):
     """-> list aligned with texts: bytes or None (nasm rejects the line)."""
     d = tmpdir()
     try:
@@ -28,7 +28,7 @@ def nasm_bytes(texts, prologue="bits 64\n"):
                 f.write(prologue)
                 for i, t in enumerate(texts):
                     f.write("nop\n" if i in bad else t + "\n")
-            p = subprocess.run(["nasm", "-f", "bin", "-O0", "-w-all", "-l", os.path.join(d, "t.lst"), "-o",
+            p = subprocess.run(["nasm", "-f", "bin", opt, "-w-all", "-l", os.path.join(d, "t.lst"), "-o",
                                 os.path.join(d, "t.bin"), src], stdout=subprocess.PIPE, stderr=subprocess.PIPE, text=True)
             if p.returncode == 0:
                 break
